@@ -876,38 +876,61 @@ def gen_contents_cases(ctx, rnd):
     return cases
 
 
-# ---- the model of coq/ImgDescribe/HostModel.v, transcribed (at_cwd, packdir_of, gens_dir, location, unpack_dir) ----
-def m_at_cwd(cwd, p):
-    return p if p[:1] == b"/" else cwd + b"/" + p
+# ---- the model of coq/ImgDescribe/HostModel.v is NOT transcribed here: the extracted definitions (coq/Extract/ExtractC16Host.v,
+# driver_host.ml) are asked, all cycles of a run in one driver process (contents_model_check) ----
+def host_line(pack_arg, opt_d, cwd_g, ucwd, unp, listing, paths):
+    o = lambda x: "-" if x is None else hx(x)
+    return " ".join(["H", hx(pack_arg), o(opt_d), hx(cwd_g), hx(ucwd), o(unp), hx(listing)] + [",".join(hx(c) for c in q) for q in paths])
 
 
-def m_packdir_of(opt_d, infile):
-    if opt_d is not None:
-        return opt_d
-    i = infile.rfind(b"/")
-    return None if i < 0 else infile[:i]
+def contents_model_check(pend, out):
+    """compare what one cycle logged with the result line of the extracted HostModel; -> (results, number of opens compared)"""
+    res = []
+    fsb = os.fsencode
+    variant, paths, data = pend["variant"], pend["paths"], pend["data"]
+    w = (out or "").split()
+    if len(w) != 5 + 3 * len(paths) or w[3] != "P":
+        return [("tie-contents:machinery", "the extracted HostModel driver answered %r" % ((out or "")[:200],), True)], 0
+    o = lambda x, none: None if x == none else unhx(x)
+    packdir, pcwd, udir, prc = o(w[0], "-"), o(w[1], "!"), unhx(w[2]), int(w[4])
+    trip = [(o(w[5 + 3 * i], "!"), o(w[6 + 3 * i], "!"), unhx(w[7 + 3 * i])) for i in range(len(paths))]
+    if prc != 0 or any(t[0] is None for t in trip):
+        res.append(("tie-contents:open:" + variant, "the modelled parser %s the listing rdsquashfs --describe printed%s: HostModel.input_path has no "
+                    "answer" % ("rejects" if prc != 0 else "accepts", "" if prc != 0 else " but the tree it builds lacks a file of the image"), True))
+        return res, 0
+    opens, pack_arg, cwd_g, rc = pend["opens"], pend["pack_arg"], pend["cwd_g"], pend["rc"]
+    expect = sorted((fsb(os.path.realpath(pcwd)), t[0]) for t in trip) if pcwd is not None else []
+    start = next((i for i, x in enumerate(opens) if x[0] == "O" and x[3] == pack_arg), None)
+    n = 0
+    if start is not None:
+        tail = opens[start + 1:]
+        got = sorted((x[2], x[3]) for x in tail if x[0] == "O" and (x[1] & 3) == 0)
+        chd = [(x[2], x[3]) for x in tail if x[0] == "C"][:1]
+        want_chd = [] if packdir is None else [(cwd_g, packdir)]
+        n = len(got)
+        if got != expect or chd != want_chd:
+            bad = next((g for g in got if g not in expect), None) or next((e for e in expect if e not in got), None)
+            res.append(("tie-contents:open:" + variant,
+                        "gensquashfs opens its input files at other paths than the extracted HostModel says (chdir %r, model (packdir_of) %r; first "
+                        "differing open (cwd, path) %r, model (gens_dir, input_path); %d opens, %d expected)" % (chd, want_chd, bad, len(got), len(expect)), True))
+    elif rc == 0:
+        res.append(("tie-contents:open:" + variant, "the open() log of gensquashfs does not show the pack file being opened", True))
+    # the model's two resolutions name the same host file (same_place on the real file system), and it holds the data
+    for q, (ip, a, b) in zip(paths, trip):
+        d, cls = data[q]
+        try:
+            same = a is not None and os.path.samefile(a, b) and open(a, "rb").read() == d
+        except OSError:
+            same = False
+        if not same:
+            res.append(("contents:unpacked:" + cls, "after unpacking, the host file %r (at_cwd gens_dir (input_path ..): where describe's location points "
+                        "from gensquashfs' pack directory) is not the file with the contents of %r (unpacked to %r)" % (a, b"/".join(q), b), False))
+            break
+    return res, n
 
 
-def m_gens_dir(cwd, opt_d, infile):
-    pd = m_packdir_of(opt_d, infile)
-    if pd is None:
-        return cwd
-    if pd == b"":
-        return None
-    return m_at_cwd(cwd, pd)
-
-
-def m_location(uroot, q):
-    j = b"/".join(q)
-    return j if uroot is None else uroot + b"/" + j
-
-
-def m_unpack_dir(cwd, u):
-    return cwd if u is None else m_at_cwd(cwd, u)
-
-
-def contents_case(ctx, tools, shim, drv, imgleg, case, wd):
-    """one cycle; returns a list of (sig, what, no_input) and a dict of counters"""
+def contents_case(ctx, tools, shim, drv, imgleg, case, wd, pend):
+    """one cycle; returns a list of (sig, what, no_input) and a dict of counters; fills pend (what contents_model_check needs)"""
     res, cnt = [], dict(files=0, bytes=0, opens=0, listing=0)
     fsb = os.fsencode
     os.makedirs(wd)
@@ -1001,37 +1024,10 @@ def contents_case(ctx, tools, shim, drv, imgleg, case, wd):
             w = l.split()
             if len(w) == 5 and w[0] in ("O", "C"):
                 opens.append((w[0], int(w[1]), unhx(w[2]), unhx(w[3]), int(w[4])))
-    # what the model says gensquashfs opens
-    pcwd = m_gens_dir(cwd_g, opt_d, pack_arg)
-    udir = m_unpack_dir(W, unp)
-    expect = sorted((fsb(os.path.realpath(pcwd)), m_location(uroot, list(q))) for q in data)
-    start = next((i for i, o in enumerate(opens) if o[0] == "O" and o[3] == pack_arg), None)
-    got = None
-    if start is not None:
-        tail = opens[start + 1:]
-        got = sorted((o[2], o[3]) for o in tail if o[0] == "O" and (o[1] & 3) == 0)
-        chd = [(o[2], o[3]) for o in tail if o[0] == "C"][:1]
-        want_chd = [] if m_packdir_of(opt_d, pack_arg) is None else [(cwd_g, m_packdir_of(opt_d, pack_arg))]
-        cnt["opens"] = len(got)
-        if got != expect or chd != want_chd:
-            bad = next((g for g in got if g not in expect), None) or next((e for e in expect if e not in got), None)
-            res.append(("tie-contents:open:" + variant,
-                        "gensquashfs opens its input files at other paths than HostModel says (chdir %r, expected %r; first differing open "
-                        "(cwd, path) %r; %d opens, %d expected)" % (chd, want_chd, bad, len(got), len(expect)), True))
-    elif rc == 0:
-        res.append(("tie-contents:open:" + variant, "the open() log of gensquashfs does not show the pack file being opened", True))
-    # the model's two resolutions name the same host file (same_place on the real file system), and it holds the data
-    for q, (d, cls) in data.items():
-        a = m_at_cwd(pcwd, m_location(uroot, list(q)))
-        b = m_at_cwd(udir, b"/".join(q))
-        try:
-            same = os.path.samefile(a, b) and open(a, "rb").read() == d
-        except OSError:
-            same = False
-        if not same:
-            res.append(("contents:unpacked:" + cls, "after unpacking, the host file %r (where describe's location points from gensquashfs' pack "
-                        "directory) is not the file with the contents of %r (unpacked to %r)" % (a, b"/".join(q), b), False))
-            break
+    # what the model says gensquashfs opens: asked after all cycles ran (one driver process)
+    paths = sorted(data)
+    pend.update(line=host_line(pack_arg, opt_d, cwd_g, W, unp, listing, paths), variant=variant, paths=paths, data=data, opens=opens,
+                pack_arg=pack_arg, cwd_g=cwd_g, rc=rc)
     if rc != 0:
         msg = err.decode("utf-8", "replace")
         res.append(("contents:reject:" + variant, "gensquashfs --pack-file fails on (describe listing, unpacked files): " + msg.strip()[-300:], False))
@@ -1345,12 +1341,40 @@ def run(ctx):
         else:
             tot = dict(files=0, bytes=0, opens=0, listing=0)
             cbad = 0
+            hdrv, herr = None, None
+            try:
+                hdrv = core.build_model_driver("C16host", "ExtractC16Host.v", os.path.join(HERE, "driver_host.ml"))
+            except RuntimeError as ex:
+                herr = str(ex)
+                ctx.proof_broken.append("coq/Extract/ExtractC16Host.v / props/C16/driver_host.ml do not build: " + herr[-300:])
+            done = []
             for i, case in enumerate(c_cases):
                 wd = os.path.join(ctx.scratch, "cont%d" % i)
+                pend = {}
                 try:
-                    res, cnt = contents_case(ctx, info["tools"], shim, drv, imgleg, case, wd)
+                    res, cnt = contents_case(ctx, info["tools"], shim, drv, imgleg, case, wd, pend)
                 except (sqfsimg.ParseError, OSError, ValueError, IndexError) as ex:
                     res, cnt = [("tie-contents:machinery", "contents leg could not be evaluated: %r" % (ex,), True)], {}
+                done.append((case, wd, res, cnt, pend))
+            # the extracted HostModel on all cycles at once (the unpacked files stay until its answers are compared)
+            asked = [j for j, dn in enumerate(done) if dn[4].get("line")]
+            hout = []
+            if hdrv is not None and asked:
+                rch, hout, eh = run_lines(hdrv, [done[j][4]["line"] for j in asked])
+                if rch != 0 or len(hout) != len(asked):
+                    ctx.proof_broken.append("the extracted HostModel driver failed (rc %d, %d of %d answers): %s" % (rch, len(hout), len(asked), eh[-200:]))
+                    hout = []
+            for k, j in enumerate(asked):
+                case, wd, res, cnt, pend = done[j]
+                if k < len(hout):
+                    try:
+                        r2, n = contents_model_check(pend, hout[k])
+                    except (OSError, ValueError, IndexError) as ex:
+                        r2, n = [("tie-contents:machinery", "contents leg could not be evaluated: %r" % (ex,), True)], 0
+                    # the tie results first (as before: where the files are looked for, then what the tool said)
+                    res[:] = r2 + res
+                    cnt["opens"] = n
+            for case, wd, res, cnt, pend in done:
                 shutil.rmtree(wd, ignore_errors=True)
                 for k in tot:
                     tot[k] += cnt.get(k, 0)
@@ -1363,16 +1387,18 @@ def run(ctx):
                     if no_input:
                         ctx.tie_broken.append("contents:" + sig.split(":")[1])
                     ctx.violation(sig, what, dict(kind="contents", contents_case=case,
-                                                  correspondence="props/C16 contents leg: coq/ImgDescribe/HostModel.v (location, gens_dir, at_cwd) vs "
+                                                  correspondence="props/C16 contents leg: coq/ImgDescribe/HostModel.v (packdir_of, gens_dir, input_path over the "
+                                                                 "modelled parser, at_cwd; extracted, coq/Extract/ExtractC16Host.v) vs "
                                                                  "rdsquashfs --describe / gensquashfs pack_files"), no_input=no_input)
             ctx.log("contents leg: %d cycles (%d failed), %d regular files / %d bytes compared by sha256, %d listings equal to the model's "
-                    "candidate, %d open() calls compared with the model's resolution" % (len(c_cases), cbad, tot["files"], tot["bytes"],
+                    "candidate, %d open() calls compared with the extracted model's resolution" % (len(c_cases), cbad, tot["files"], tot["bytes"],
                                                                                          tot["listing"], tot["opens"]))
             ctx.coverage["contents_leg"] = dict(cycles=len(c_cases), failed=cbad, files=tot["files"], bytes=tot["bytes"],
                                                 listings=tot["listing"], opens=tot["opens"], variants=C_VARIANTS, classes=C_CLASSES)
             ctx.coverage["evaluations"] += tot["files"] + tot["opens"]
-            ctx.trusted.append("props/C16/shim_open.c (LD_PRELOAD open()/chdir() logger), the Python transcription of HostModel.v's "
-                               "at_cwd / packdir_of / gens_dir / location in check.py, os.path.realpath/samefile")
+            ctx.trusted.append("props/C16/shim_open.c (LD_PRELOAD open()/chdir() logger), Coq extraction of HostModel.v's packdir_of / gens_dir / "
+                               "input_path / at_cwd / unpack_dir (coq/Extract/ExtractC16Host.v, ExtrOcamlBasic) + props/C16/driver_host.ml, "
+                               "os.path.realpath/samefile")
             ctx.assumptions.append("describe_repack_contents: the host file system between rdsquashfs and gensquashfs is a finite map from "
                                    "path strings to bytes, relative paths resolved textually against the working directory (no symlinks, "
                                    "no '//' / '.' / '..' normalisation); checked on real files by the contents leg (samefile + sha256)")
@@ -1419,3 +1445,4 @@ def run(ctx):
 
 def setup():
     core.build_model_driver("C16", "ExtractC16.v", os.path.join(HERE, "driver.ml"))
+    core.build_model_driver("C16host", "ExtractC16Host.v", os.path.join(HERE, "driver_host.ml"))
